@@ -15,6 +15,7 @@ package main
 
 import (
 	"bytes"
+	"encoding/json"
 	"fmt"
 	"reflect"
 	"sort"
@@ -27,6 +28,7 @@ import (
 	sdk "github.com/cosmos/cosmos-sdk/types"
 	"github.com/cosmos/cosmos-sdk/types/bech32"
 	"github.com/cosmos/cosmos-sdk/types/tx/signing"
+	"github.com/cosmos/cosmos-sdk/x/auth/legacy/legacytx"
 	authsign "github.com/cosmos/cosmos-sdk/x/auth/signing"
 	abci "github.com/tendermint/tendermint/abci/types"
 
@@ -305,6 +307,22 @@ func runC11(r *RunCtx) error {
 				if len(r.Sum.Samples) < 2 {
 					r.Sample(desc)
 				}
+			}
+			if k == 0 {
+				// the amino name the running app's GetSignBytes carries for this type (compared with the table's m_amino)
+				name := "None"
+				if lm, ok := msg.(legacytx.LegacyMsg); ok {
+					var doc map[string]json.RawMessage
+					var sb []byte
+					if pn := Guard(func() { sb = lm.GetSignBytes() }); pn == "" && json.Unmarshal(sb, &doc) == nil && len(doc) == 2 {
+						var nm string
+						if _, hasV := doc["value"]; hasV && json.Unmarshal(doc["type"], &nm) == nil && nm != "" {
+							name = "(Some " + c11Str(nm) + ")"
+						}
+					}
+				}
+				r.Case("table", fmt.Sprintf("MsgAmino %s %s", c11Str(url), name), map[string]interface{}{"kind": "amino name in GetSignBytes", "type_url": url, "name": name})
+				r.Hist("amino_sign_bytes", map[bool]string{true: "bare field object", false: "named"}[name == "None"])
 			}
 			if k == 0 || !reflect.DeepEqual(fields, firstFields) || routable != firstRoutable || !reflect.DeepEqual(vb, firstVB) {
 				r.Case("table", fmt.Sprintf("MsgObs %s %s %s %s", c11Str(url), c11StrList(fields), cBool(routable), c11OptBool(vb)), desc)
